@@ -50,6 +50,14 @@ class Machine:
     def call(self, func, *args, **kwargs):
         """Generator: run func as a coroutine if it was rewritten, else natively."""
         target = None
+        owner = getattr(func, "__self__", None)
+        if owner is not None and _is_lock(owner) and getattr(func, "__name__", "") in ("acquire", "release"):
+            # explicit lock.acquire() / lock.release() inside a rewritten function: the virtual lock
+            if func.__name__ == "acquire":
+                yield from self.acquire(owner)
+                return True
+            self.release(owner)
+            return None
         if isinstance(func, types.MethodType) and func.__func__ in self.table:
             target, args = self.table[func.__func__], (func.__self__,) + args
         elif isinstance(func, types.FunctionType) and func in self.table:
@@ -88,9 +96,13 @@ class Machine:
             yield ("blocked", lk)
         lk.owner = self.current
         lk.depth += 1
+        # also take the real lock (all virtual threads share one OS thread, and the virtual owner check above guarantees
+        # it is free or re-entrantly ours): code that runs natively may release / re-acquire it explicitly
+        real.acquire()
 
     def release(self, real):
         lk = self.vlock(real)
+        real.release()
         lk.depth -= 1
         if lk.depth == 0:
             lk.owner = None
